@@ -591,7 +591,10 @@ fn pack_prop(c: &Case) -> Verdict {
             let mut gids = git_ids.clone();
             gids.sort();
             if ids != gids {
-                let dup = ids.windows(2).any(|w| w[0] == w[1]);
+                // the known deviation: the very same objects, some of them twice
+                let mut dedup = ids.clone();
+                dedup.dedup();
+                let dup = dedup == gids && ids.len() > gids.len();
                 return Verdict::fail(
                     if dup { "duplicate-object-injected" } else { "object-set-differs" },
                     format!("gix {} objects, git {}", ids.len(), gids.len()),
